@@ -689,3 +689,196 @@ Proof.
   - intros s. repeat split; [apply parse_formula_str_noof| | | |]; apply on_text_noof;
       [exact parse_theory_toks_noof|exact parse_spec_toks_noof|exact parse_ug_toks_noof|exact parse_ug_raw_toks_noof].
 Qed.
+
+(* ================================================================ E. the counters whose exhaustion is NOT
+   the explicit Oof: the Pratt phase ([pratt] runs on [length items], None at 0), re-lexing ([relex] runs
+   on S (length w), [TBad] at 0) and the lexer ([lex] runs on S (length l), None at 0).  Any two counters at
+   or above the computed one agree. *)
+From Anthem Require Import Proofs.FolPrattOk.
+
+Section PrattFuel.
+  Variables T U B : Type.
+  Variable mk_un : U -> T -> T.
+  Variable mk_bin : B -> T -> T -> T.
+  Variable pre_bp : U -> option nat.
+  Variable in_bp : B -> option (nat * assoc).
+  Notation item := (pitem T U B).
+  Notation expr := (pratt_expr mk_un mk_bin pre_bp in_bp).
+  Notation loop := (pratt_loop mk_un mk_bin pre_bp in_bp).
+  Notation expr_S := (expr_S T U B mk_un mk_bin pre_bp in_bp).
+  Notation loop_eq := (loop_eq T U B mk_un mk_bin pre_bp in_bp).
+
+  Lemma pratt_fn_len : forall f,
+    (forall rbp is t r, expr f rbp is = Some (t, r) -> List.length r < List.length is) /\
+    (forall rbp lhs is t r, loop f rbp lhs is = Some (t, r) -> List.length r <= List.length is).
+  Proof.
+    induction f as [|f [IHE IHL]].
+    - split; [discriminate|]. intros rbp lhs is t r. rewrite loop_eq.
+      destruct is as [|i is]; [intros [= _ <-]; lia|]. destruct i; try discriminate.
+      destruct (in_bp o) as [[p a]|]; [|discriminate]. destruct (rbp <? p)%nat; [discriminate|].
+      intros [= _ <-]. lia.
+    - assert (E : forall rbp is t r, expr (S f) rbp is = Some (t, r) -> List.length r < List.length is).
+      { intros rbp is t r. rewrite expr_S. destruct is as [|i is]; [discriminate|]. destruct i; try discriminate.
+        - intros H. apply IHL in H. cbn [List.length]. lia.
+        - destruct (pre_bp u) as [p|]; [|discriminate].
+          destruct (expr f (p - 1) is) as [[t0 r0]|] eqn:E0; [|discriminate].
+          intros H. apply IHE in E0. apply IHL in H. cbn [List.length]. lia. }
+      split; [exact E|].
+      intros rbp lhs is t r. rewrite loop_eq.
+      destruct is as [|i is]; [intros [= _ <-]; lia|]. destruct i; try discriminate.
+      destruct (in_bp o) as [[p a]|]; [|discriminate]. destruct (rbp <? p)%nat; [|intros [= _ <-]; lia].
+      destruct (expr f (rhs_bp p a) is) as [[rhs r0]|] eqn:E0; [|discriminate].
+      intros H. apply IHE in E0. apply IHL in H. cbn [List.length]. lia.
+  Qed.
+
+  Lemma pratt_fn_fuel : forall f1,
+    (forall f2 rbp is, List.length is <= f1 -> List.length is <= f2 -> expr f1 rbp is = expr f2 rbp is) /\
+    (forall f2 rbp lhs is, List.length is <= f1 -> List.length is <= f2 -> loop f1 rbp lhs is = loop f2 rbp lhs is).
+  Proof.
+    induction f1 as [|f1 [IHE IHL]].
+    - split.
+      + intros f2 rbp is H1 H2. destruct is; [|cbn in H1; lia]. destruct f2; reflexivity.
+      + intros f2 rbp lhs is H1 H2. destruct is; [|cbn in H1; lia]. rewrite !loop_eq. reflexivity.
+    - split.
+      + intros f2 rbp is H1 H2. destruct f2 as [|f2]; [destruct is; [reflexivity|cbn in H2; lia]|].
+        rewrite !expr_S. destruct is as [|i is]; [reflexivity|]. cbn [List.length] in *.
+        destruct i; try reflexivity.
+        * apply IHL; lia.
+        * destruct (pre_bp u) as [p|]; [|reflexivity].
+          rewrite <- (IHE f2) by lia.
+          destruct (expr f1 (p - 1) is) as [[t0 r0]|] eqn:E0; [|reflexivity].
+          apply (proj1 (pratt_fn_len f1)) in E0. apply IHL; lia.
+      + intros f2 rbp lhs is H1 H2. rewrite !loop_eq.
+        destruct is as [|i is]; [reflexivity|]. cbn [List.length] in *. destruct i; try reflexivity.
+        destruct (in_bp o) as [[p a]|]; [|reflexivity]. destruct (rbp <? p)%nat; [|reflexivity].
+        destruct f2 as [|f2]; [lia|].
+        rewrite <- (IHE f2) by lia.
+        destruct (expr f1 (rhs_bp p a) is) as [[rhs r0]|] eqn:E0; [|reflexivity].
+        apply (proj1 (pratt_fn_len f1)) in E0. apply IHL; lia.
+  Qed.
+
+  (* [pratt] with an arbitrary counter at or above the number of items *)
+  Theorem pratt_fuel f is : List.length is <= f ->
+    match expr f 0 is with Some (t, []) => Some t | _ => None end = pratt mk_un mk_bin pre_bp in_bp is.
+  Proof.
+    intros H. unfold pratt. rewrite (proj1 (pratt_fn_fuel f) (List.length is)) by lia. reflexivity.
+  Qed.
+End PrattFuel.
+
+Lemma relex_run_fuel : forall f1 f2 w suf, List.length w < f1 -> List.length w < f2 ->
+  relex_run f1 w suf = relex_run f2 w suf.
+Proof.
+  induction f1 as [|f1 IH]; intros f2 w suf H1 H2; [lia|]. destruct f2 as [|f2]; [lia|].
+  cbn [relex_run]. destruct w as [|c r]; [reflexivity|]. cbn [List.length] in *.
+  destruct (Ascii.eqb c "0"); [rewrite (IH f2) by lia; reflexivity|].
+  destruct (is_digit c) eqn:D; [|reflexivity].
+  destruct (span is_digit (c :: r)) as [ds r'] eqn:E.
+  assert (L : List.length r' < List.length (c :: r)).
+  { cbn [span] in E. rewrite D in E. destruct (span is_digit r) as [a b] eqn:E2. inversion E; subst.
+    apply span_length in E2. cbn. lia. }
+  cbn [List.length] in L. rewrite (IH f2) by lia. reflexivity.
+Qed.
+
+Theorem relex_fuel f w suf : List.length w < f -> relex_run f w suf = relex w suf.
+Proof. intros H. unfold relex. apply relex_run_fuel; lia. Qed.
+
+Lemma strip_prefix_le pre l r : strip_prefix pre l = Some r -> List.length r <= List.length l.
+Proof. intros H. apply strip_prefix_length in H. lia. Qed.
+
+Lemma span_le p l a b : span p l = (a, b) -> List.length b <= List.length l.
+Proof. intros H. apply span_length in H. lia. Qed.
+
+Lemma span_head_lt p c l a b : p c = true -> span p (c :: l) = (a, b) -> List.length b <= List.length l.
+Proof.
+  intros Hc. cbn [span]. rewrite Hc. destruct (span p l) as [a' b'] eqn:E. intros [= _ <-].
+  apply span_length in E. lia.
+Qed.
+
+Lemma lex_suffix_le l suf r : lex_suffix l = (suf, r) -> List.length r <= List.length l.
+Proof.
+  unfold lex_suffix. destruct l as [|c r0]; [intros [= _ <-]; lia|].
+  destruct c as [[] [] [] [] [] [] [] []]; try (intros [= _ <-]; lia).
+  repeat match goal with |- context [strip_prefix ?p ?x] => destruct (strip_prefix p x) eqn:? end;
+    intros [= _ <-];
+    repeat match goal with H : strip_prefix _ _ = Some _ |- _ => apply strip_prefix_length in H end;
+    cbn in *; lia.
+Qed.
+
+Lemma wordstart_wordchar c : is_wordstart c = true -> is_wordchar c = true.
+Proof.
+  unfold is_wordstart, is_wordchar. destruct (is_digit c), (is_lower c), (is_upper c), (Ascii.eqb c "_"); auto.
+Qed.
+
+Lemma lex_go_fuel : forall f1 f2 l, List.length l < f1 -> List.length l < f2 -> lex_go f1 l = lex_go f2 l.
+Proof.
+  induction f1 as [|f1 IH]; intros f2 l H1 H2; [lia|]. destruct f2 as [|f2]; [lia|].
+  cbn [lex_go]. destruct l as [|c r]; [reflexivity|]. cbn [List.length] in *.
+  assert (R : forall l', List.length l' <= List.length r -> lex_go f1 l' = lex_go f2 l')
+    by (intros; apply IH; lia).
+  destruct (is_space c); [apply R; lia|].
+  destruct (Ascii.eqb c "%").
+  { destruct (span (fun d => negb (is_newline d)) r) as [a b] eqn:E. cbn [snd]. apply R.
+    apply span_le in E. exact E. }
+  destruct (is_wordstart c) eqn:WS.
+  { destruct (span is_wordchar (c :: r)) as [w r1] eqn:E.
+    apply (span_head_lt _ _ _ _ _ (wordstart_wordchar c WS)) in E.
+    assert (SUF : (let '(suf, r3) := lex_suffix r1 in cons_tok (word_tok w suf) (lex_go f1 r3)) =
+                  (let '(suf, r3) := lex_suffix r1 in cons_tok (word_tok w suf) (lex_go f2 r3))).
+    { destruct (lex_suffix r1) as [suf r3] eqn:E3. apply lex_suffix_le in E3. rewrite R by lia. reflexivity. }
+    destruct (if String.eqb (unchars w) "inductive" then strip_prefix (chars "-lemma") r1 else None) as [r2|] eqn:E2;
+      [|exact SUF].
+    assert (L2 : List.length r2 <= List.length r1).
+    { destruct (String.eqb (unchars w) "inductive"); [apply strip_prefix_le in E2; exact E2|discriminate]. }
+    destruct r2 as [|d r2']; [rewrite R by (cbn in *; lia); reflexivity|].
+    destruct (is_wordchar d || Ascii.eqb d "$"); [exact SUF|rewrite R by lia; reflexivity]. }
+  destruct (Ascii.eqb c "0"); [rewrite R by lia; reflexivity|].
+  destruct (is_digit c) eqn:D.
+  { destruct (span is_digit (c :: r)) as [ds r1] eqn:E. apply (span_head_lt _ _ _ _ _ D) in E.
+    rewrite R by lia. reflexivity. }
+  assert (SP : forall r', List.length r' <= List.length r -> forall (t : N -> token),
+            (let '(ds, r1) := span is_digit r' in cons_tok (t (digits_val ds)) (lex_go f1 r1)) =
+            (let '(ds, r1) := span is_digit r' in cons_tok (t (digits_val ds)) (lex_go f2 r1))).
+  { intros r' L t. destruct (span is_digit r') as [ds r1] eqn:E. apply span_le in E. rewrite R by lia. reflexivity. }
+  assert (SPF : forall r', List.length r' <= List.length r -> forall (t : N -> token),
+            (let '(ds, r1) := span is_digit r' in cons_tok (t (digits_val ds)) (lex_go f1 r1)) =
+            (let '(ds, r1) := span is_digit r' in cons_tok (t (digits_val ds)) (lex_go f2 r1))) by exact SP.
+  clear IH D WS.
+  repeat match goal with
+         | |- context [if Ascii.eqb c ?k then _ else _] => destruct (Ascii.eqb c k)
+         end;
+  try reflexivity; try (rewrite R by lia; reflexivity).
+  all: repeat match goal with
+         | |- context [strip_prefix ?p ?x] => destruct (strip_prefix p x) eqn:?
+         end;
+       repeat match goal with H : strip_prefix _ _ = Some _ |- _ => apply strip_prefix_le in H end;
+       try reflexivity; try (rewrite R by lia; reflexivity).
+  all: destruct r as [|d r1]; try reflexivity; try (rewrite R by (cbn; lia); reflexivity).
+  all: repeat match goal with
+         | |- context [if ?b then _ else _] => destruct b
+         | |- context [match ?x with _ => _ end] => is_var x; destruct x
+         end;
+       first [ reflexivity
+             | rewrite R by (cbn [List.length] in *; lia); reflexivity
+             | apply SP; cbn [List.length] in *; lia ].
+Qed.
+
+Theorem lex_fuel f s : String.length s < f -> lex_go f (chars s) = lex s.
+Proof. intros H. unfold lex. apply lex_go_fuel; rewrite chars_length; lia. Qed.
+
+(* packaged for Properties/C15.v *)
+Theorem fol_fuel_inner :
+  (forall f is, List.length is <= f ->
+     match pratt_expr mk_fpre (fun c l r => FBin c l r) formula_pre_bp formula_in_bp f 0 is with
+     | Some (t, []) => Some t | _ => None end = pratt_formula is) /\
+  (forall f is, List.length is <= f ->
+     match pratt_expr (fun _ t => IUn UNeg t) (fun o l r => IBin o l r) iterm_pre_bp iterm_in_bp f 0 is with
+     | Some (t, []) => Some t | _ => None end = pratt_iterm is) /\
+  (forall f w suf, List.length w < f -> relex_run f w suf = relex w suf) /\
+  (forall f s, String.length s < f -> lex_go f (chars s) = lex s).
+Proof.
+  split; [|split; [|split]].
+  - intros. unfold pratt_formula. apply pratt_fuel. assumption.
+  - intros. unfold pratt_iterm. apply pratt_fuel. assumption.
+  - exact relex_fuel.
+  - exact lex_fuel.
+Qed.
